@@ -434,7 +434,8 @@ pub fn render_items(items: &[Item]) -> Vec<String> {
                 out.push(format!("{}{}", "`".repeat(*ticks), info));
                 out.extend(body.iter().cloned());
                 if *closed {
-                    out.push("`".repeat(*ticks));
+                    // a closing fence may be longer than the opening one (CommonMark); vary deterministically
+                    out.push("`".repeat(*ticks + body.len() % 2));
                 }
             }
             Item::Scrut(b) => {
@@ -446,7 +447,7 @@ pub fn render_items(items: &[Item]) -> Vec<String> {
                 }
                 out.extend(b.after.iter().cloned());
                 if b.closed {
-                    out.push("`".repeat(b.ticks));
+                    out.push("`".repeat(b.ticks + ((b.after.len() + b.cmd.len()) % 3 == 2) as usize));
                 }
             }
         }
